@@ -1,6 +1,8 @@
 package main
 
 import (
+	"encoding/hex"
+	"encoding/json"
 	"fmt"
 	"strings"
 
@@ -28,7 +30,7 @@ var tokAlphabet = []string{"$", "@", ".", ",", "(", ")", "[", "]", "{", "}", "?"
 
 func c08(c *Ctx) {
 	maxLen := c.N(4, 5)
-	c.Rule = fmt.Sprintf("exhaustive: all token strings of length <=%d over %v (tokens joined without spaces; adjacent identifier-like tokens are separated by one space); random: byte strings (printable, UTF-8, invalid UTF-8, NUL, quotes, comments), grammar-generated queries, nesting to depth 1000, NaN/Inf spellings, whitespace/comment-only; each parsed plain, chunked, at an offset, twice at different points of the worker's history, and with a read fault (every offset for inputs <=24 bytes, a random offset otherwise). Non-trivial = the input parses to an operation; distinct by input bytes.", maxLen, tokAlphabet)
+	c.Rule = fmt.Sprintf("exhaustive: all token strings of length <=%d over %v (tokens joined without spaces; adjacent identifier-like tokens are separated by one space); random: byte strings (printable, UTF-8, invalid UTF-8, NUL, quotes, comments), grammar-generated queries, nesting to depth 1000, NaN/Inf spellings, whitespace/comment-only; each parsed plain, chunked, at an offset, twice at different points of the worker's history, and with a read fault delivered in 4 ways (error after the bytes / together with the last bytes, sticky / followed by EOF; every offset for inputs <=24 bytes, a random offset otherwise); probe queries parsed before and after histories of 20..60 other parses, half of them rejected nestings 50..1000 deep, on the pooled scanners with the collector held off. Non-trivial = the input parses to an operation; distinct by input bytes.", maxLen, tokAlphabet)
 	var inputs []string
 	var gen func(n int, cur []string)
 	gen = func(n int, cur []string) {
@@ -169,7 +171,7 @@ func c08(c *Ctx) {
 			c.Violation("relation", fmt.Sprintf("input %s: a reader positioned at a non-zero offset gives %s, ParseString gives %s", short(fmt.Sprintf("%q", in)), rep.Offset.Class, rep.Plain.Class), cs(map[string]any{"plain": rep.Plain, "offset": rep.Offset}))
 		}
 		if rf.faultAt >= 0 && rep.Fault.Class != "err" {
-			c.Violation("relation", fmt.Sprintf("input %s: a read fault at byte %d yields %s, not an error", short(fmt.Sprintf("%q", in)), rf.faultAt, rep.Fault.Class), cs(map[string]any{"fault": rep.Fault}))
+			c.Violation("relation", fmt.Sprintf("input %s: a read fault at byte %d (delivery mode %d: %s) yields %s, not an error", short(fmt.Sprintf("%q", in)), rf.faultAt, rep.FaultMode, faultModes[rep.FaultMode], rep.Fault.Class), cs(map[string]any{"fault": rep.Fault, "fault_mode": rep.FaultMode}))
 		}
 		if prev, ok := first[rf.input]; ok {
 			if !same(prev, rep.Plain) {
@@ -204,10 +206,84 @@ func c08(c *Ctx) {
 			c.Sample(map[string]any{"input": short(fmt.Sprintf("%q", in)), "plain": rep.Plain.Class, "plan": rep.Plan, "fault_at": rf.faultAt, "fault": rep.Fault.Class})
 		}
 	}
+	// histories: probes parsed before and after long runs of other parses (rejected deep nestings, random
+	// inputs) on the pooled scanners, the collector held off so that the pool keeps its scanners
+	nHist := c.N(60, 800)
+	probesFixed := []string{"$.a.Equal(1)", "$.a.b", "{OR,$.a,$.b.Not()}", "$.xs[@.k.Greater(1)].name", "$.a.Equal({$.b,$.c.Less(2)})", "$", "$.a.Equal(", "$.a]", "{$.a", "$.a.Equal(\"x\").Not()", deep}
+	deepRejected := func() string {
+		d := 50 + r.Intn(451)
+		if r.Intn(10) == 0 {
+			d = 1000
+		}
+		switch r.Intn(5) {
+		case 0:
+			return strings.Repeat("{", d) + ")"
+		case 1:
+			return strings.Repeat("$.f.Equal(", d) + "]"
+		case 2:
+			return strings.Repeat("$.a[@.b", d) + "}"
+		case 3:
+			return strings.Repeat("{$.a.Equal(", d) + "\"open"
+		}
+		return strings.Repeat("{", d) + "$.a" + strings.Repeat("}", d-1) // one bracket short
+	}
+	var hjobs []h.Job
+	var hprobes [][]string
+	for i := 0; i < nHist; i++ {
+		var hist, probes []string
+		for k, n := 0, 20+r.Intn(41); k < n; k++ {
+			if r.Intn(2) == 0 {
+				hist = append(hist, hex.EncodeToString([]byte(deepRejected())))
+			} else {
+				hist = append(hist, hex.EncodeToString([]byte(inputs[r.Intn(len(inputs))])))
+			}
+		}
+		ps := append([]string{}, probesFixed...)
+		for k := 0; k < 4; k++ {
+			ps = append(ps, inputs[exhaustive+r.Intn(len(inputs)-exhaustive)])
+		}
+		for _, p := range ps {
+			probes = append(probes, hex.EncodeToString([]byte(p)))
+		}
+		hprobes = append(hprobes, ps)
+		hjobs = append(hjobs, h.Job{Kind: "parsehist", Payload: strings.Join(hist, ",") + ";" + strings.Join(probes, ",")})
+	}
+	byInput := map[string]parseOut{}
+	for in, o := range first {
+		byInput[inputs[in]] = o
+	}
+	for i, line := range h.RunJobs(hjobs, 12) {
+		cs := map[string]any{"kind": "parsehist", "payload": hjobs[i].Payload}
+		b, err := hex.DecodeString(line)
+		var rep parseHistReply
+		if err != nil || json.Unmarshal(b, &rep) != nil || len(rep.Before) != len(hprobes[i]) || len(rep.After) != len(hprobes[i]) {
+			c.Violation("relation", "a history of parses: the process "+short(line), cs)
+			continue
+		}
+		for k, p := range hprobes[i] {
+			c.Evals += 2
+			c.Count("history-probe:" + rep.After[k].Class)
+			want, ok := byInput[p]
+			if !ok {
+				want = rep.Before[k]
+				byInput[p] = want
+			}
+			for when, got := range map[string]parseOut{"before": rep.Before[k], "after": rep.After[k]} {
+				if !same(got, want) {
+					c.Violation("relation", fmt.Sprintf("input %s: parsed %s a history of %d other parses it gives %s %s, elsewhere %s %s", short(fmt.Sprintf("%q", p)), when, strings.Count(hjobs[i].Payload[:strings.Index(hjobs[i].Payload, ";")], ",")+1, got.Class, short(got.Err), want.Class, short(want.Err)),
+						map[string]any{"kind": "parsehist", "payload": hjobs[i].Payload, "probe": p, "when": when, "got": got, "want": want})
+					break
+				}
+			}
+		}
+	}
+	c.Note("parse_histories", nHist)
 	c.Note("inputs", len(inputs))
 	c.Note("exhaustive_token_strings", exhaustive)
 	c.Note("parses", len(refs)*4)
 }
+
+var faultModes = []string{"bytes, then the error on every later Read", "the last bytes together with the error, then EOF", "the last bytes together with the error, the error again later", "the error once, then EOF"}
 
 func isWordTok(t string) bool {
 	ch := t[0]
